@@ -56,16 +56,30 @@ def _mk_ggm():
     return ff.PulseSequence([[Y, [0.8, 0.1, -0.5], 'Y']], [[Z, [1, -1, 1], 'Z']], [0.4, 0.4, 1.1], basis=ff.Basis.ggm(2))
 
 
+def _mk_extended():
+    """two single-qubit pulses extended to a two-qubit pulse WITH cached diagonalization: eigvals / eigvecs are
+    assembled from those of the inputs (not what numeric.diagonalize returns for the two-qubit Hamiltonian)"""
+    a = ff.PulseSequence([[X, [1.0, -0.4], 'X'], [Y, [0.3, 0.8], 'Y']], [[Z, [1, 1], 'Z']], [0.5, 1.0], basis=ff.Basis.pauli(1))
+    b = ff.PulseSequence([[X, [0.7, 0.2], 'X'], [Y, [-0.5, 1.1], 'Y']], [[X, [0.5, 2.0], 'Xn']], [0.5, 1.0], basis=ff.Basis.pauli(1))
+    a.diagonalize()
+    b.diagonalize()
+    with warnings.catch_warnings():
+        warnings.simplefilter('ignore')
+        return ff.extend([(a, 0), (b, 1)], N=2, cache_diagonalization=True)
+
+
 GRIDS = [[np.linspace(0.1, 5, 4), np.linspace(0.3, 9, 4), np.linspace(0.2, 3, 3)],
          [np.array([-2.0, 0.0, 1.5]), np.array([-2.0, 0.0, 1.5000001]), np.array([-2.0, 0.0, 1.5, 4.0])]]
-WORLDS = [(_mk_pauli, 0), (_mk_nontraceless, 0), (_mk_ggm, 1), (_mk_pauli, 1)]
+WORLDS = [(_mk_pauli, 0), (_mk_nontraceless, 0), (_mk_ggm, 1), (_mk_pauli, 1), (_mk_extended, 0)]
+PLAIN = [0, 1, 2, 3]
+EXTENDED = 4            # the model's FreshExtended object
 _world_cache = {}
 
 
 def world(k):
     if k not in _world_cache:
         mk, gi = WORLDS[k]
-        _world_cache[k] = cs.World(mk, GRIDS[gi])
+        _world_cache[k] = cs.World(mk, GRIDS[gi], extended=(k == EXTENDED))
     return _world_cache[k]
 
 
@@ -92,7 +106,7 @@ def fresh_value(wk, op):
         try:
             with warnings.catch_warnings():
                 warnings.simplefilter('ignore')
-                v = cs.apply_op(w, w.make(), op)
+                v = cs.apply_op(w, w.fresh(), op)
             _fresh_cache[key] = (np.array(v) if v is not None else None, None)
         except Exception as e:      # noqa
             _fresh_cache[key] = (None, e)
@@ -127,15 +141,15 @@ def reference(wk, g):
         from filter_functions import numeric
         w = world(wk)
         om = w.W[g]
-        q = w.make()
+        q = w.fresh()
         B = np.array(q.get_control_matrix(om.copy(), cache_intermediates=True))
         ref = {k: np.array(v) for k, v in q._intermediates.items()}
         B4 = np.stack([0.25 * B, 0.75 * B])
         ref.update({'_control_matrix': B, '_control_matrix_pc': B4,
-                    '_total_phases': np.array(w.make().get_total_phases(om.copy())),
-                    '_filter_function': np.array(w.make().get_filter_function(om.copy())),
-                    '_filter_function_gen': np.array(w.make().get_filter_function(om.copy(), which='generalized')),
-                    '_filter_function_2': np.array(w.make().get_filter_function(om.copy(), order=2)),
+                    '_total_phases': np.array(w.fresh().get_total_phases(om.copy())),
+                    '_filter_function': np.array(w.fresh().get_filter_function(om.copy())),
+                    '_filter_function_gen': np.array(w.fresh().get_filter_function(om.copy(), which='generalized')),
+                    '_filter_function_2': np.array(w.fresh().get_filter_function(om.copy(), order=2)),
                     '_filter_function_pc': numeric.calculate_pulse_correlation_filter_function(B4, 'fidelity'),
                     '_filter_function_pc_gen': numeric.calculate_pulse_correlation_filter_function(B4, 'generalized')})
         q.total_propagator_liouville
@@ -192,48 +206,58 @@ def battery(w, mini=False):
 
 
 def property_check(wk, history, mini=False):
-    """run the history; returns (observations, list of (observable, detail))"""
+    """run the history; returns (observations, list of (observable, detail)).  The observations carry, per call, the
+    value flag (0 equals the fresh pulse's value, 1 differs / raises although the fresh pulse does not, 2 not
+    compared) that is compared with the model's verdict inside Coq.  For the extended pulse (world EXTENDED) the
+    deviations are not failures by themselves: the model mirrors the known defect and decides (see run)."""
     w = world(wk)
     bad = []
+    plain = not w.extended
+
+    def vflag(n, call, val, exc):
+        if call[0] not in ('call', 'fail') or not is_grid_getter(call[2]) or isinstance(exc, cs.Injected):
+            return 2
+        op = call[2]
+        fv, fe = fresh_value(wk, op)
+        if fe is not None:
+            return 2
+        if exc is not None:
+            bad.append(('exception', 'call %d %r raises %s: %s; a fresh pulse does not' % (n, op, type(exc).__name__, exc)))
+            return 1
+        if val is None:
+            return 2
+        d = differs(val, fv)
+        if d:
+            bad.append(('value', 'call %d %r differs from the fresh pulse: %s' % (n, op, d)))
+            return 1
+        return 0
 
     def after_call(n, objs):
+        if not plain:
+            return
         for i, p in enumerate(objs):
             v = invariant_violation(wk, p)
             if v and not any(b[0] == 'invariant' for b in bad):
                 bad.append(('invariant', 'after call %d object %d: %s' % (n, i, v)))
-    obs, objs, values = cs.run_history(w, history, want_values=True, after_call=after_call)
-    for n, (call, (val, exc)) in enumerate(zip(history, values)):
-        if call[0] not in ('call', 'fail'):
-            continue
-        op = call[2]
-        if not is_grid_getter(op):
-            continue
-        if isinstance(exc, cs.Injected):
-            continue
-        fv, fe = fresh_value(wk, op)
-        if exc is not None and fe is None:
-            bad.append(('exception', 'call %d %r raises %s: %s; a fresh pulse does not' % (n, op, type(exc).__name__, exc)))
-        elif exc is None and fe is None and val is not None:
-            d = differs(val, fv)
-            if d:
-                bad.append(('value', 'call %d %r differs from the fresh pulse: %s' % (n, op, d)))
-    with warnings.catch_warnings():
-        warnings.simplefilter('ignore')
-        for i, p in enumerate(objs):
-            for op in battery(w, mini):
-                q = copy.deepcopy(p)
-                fv, fe = fresh_value(wk, op)
-                try:
-                    v = cs.apply_op(w, q, op)
-                except Exception as e:      # noqa
+    obs, objs, values = cs.run_history(w, history, want_values=True, after_call=after_call, vflag=vflag)
+    if plain:
+        with warnings.catch_warnings():
+            warnings.simplefilter('ignore')
+            for i, p in enumerate(objs):
+                for op in battery(w, mini):
+                    q = copy.deepcopy(p)
+                    fv, fe = fresh_value(wk, op)
+                    try:
+                        v = cs.apply_op(w, q, op)
+                    except Exception as e:      # noqa
+                        if fe is None:
+                            bad.append(('exception', 'after the history %r on object %d raises %s: %s; a fresh pulse does not'
+                                        % (op, i, type(e).__name__, e)))
+                        continue
                     if fe is None:
-                        bad.append(('exception', 'after the history %r on object %d raises %s: %s; a fresh pulse does not'
-                                    % (op, i, type(e).__name__, e)))
-                    continue
-                if fe is None:
-                    d = differs(v, fv)
-                    if d:
-                        bad.append(('value', 'after the history %r on object %d differs from the fresh pulse: %s' % (op, i, d)))
+                        d = differs(v, fv)
+                        if d:
+                            bad.append(('value', 'after the history %r on object %d differs from the fresh pulse: %s' % (op, i, d)))
     return obs, bad
 
 
@@ -310,6 +334,17 @@ def random_history(r, wk, maxlen=8, p_fail=0.15, bad_user=False):
             H.append(('fail', int(r.integers(0, nobj)), alpha[int(r.integers(0, len(alpha)))], int(r.integers(0, 5))))
         else:
             H.append(('call', int(r.integers(0, nobj)), alpha[int(r.integers(0, len(alpha)))]))
+    if w.extended:
+        # the requests that are sensitive to the eigenbasis of the intermediates, as ordinary calls (compared with
+        # the model like all others); clean-ups are made more likely
+        for k in range(len(H)):
+            if H[k][0] == 'call' and r.random() < 0.25:
+                H[k] = ('call', H[k][1], ('Cleanup', 'Conservative'))
+        for _ in range(3):
+            g = int(r.integers(0, 3))
+            H.append(('call', int(r.integers(0, nobj)),
+                      [('GetFF', g, 'Fidelity', 'Second', False), ('GetDeriv', g), ('Cumulant', g, 'Total', True, None),
+                       ('GetCM', g, True)][int(r.integers(0, 4))]))
     return H
 
 
@@ -360,6 +395,25 @@ def probe_omega_alias():
     return differs(got, want)
 
 
+def probe_eig_intermediates():
+    """extend(...) with cached diagonalization, intermediates cached, cleanup('conservative'), then requests for the
+    SAME frequencies: intermediates in the dropped eigenbasis are combined with re-computed eigen-data"""
+    w = world(EXTENDED)
+    om = w.W[0]
+    out = {}
+    for name, req in (('second order filter function', lambda p: p.get_filter_function(om.copy(), order=2)),
+                      ('filter function derivative', lambda p: p.get_filter_function_derivative(om.copy()))):
+        p = w.make()
+        p.get_control_matrix(om.copy(), cache_intermediates=True)
+        p.cleanup('conservative')
+        with warnings.catch_warnings():
+            warnings.simplefilter('ignore')
+            d = differs(req(p), req(w.fresh()))
+        if d:
+            out[name] = d
+    return out
+
+
 # ------------------------------------------------------------------ plugin interface
 def run(ctx):
     r = ctx.rng(7)
@@ -367,8 +421,12 @@ def run(ctx):
     items = []          # (wk, history, mini)
     nrand = 1500 if ctx.thorough else 260
     for n in range(nrand):
-        wk = n % len(WORLDS)
+        wk = PLAIN[n % len(PLAIN)]
         items.append((wk, random_history(r, wk, bad_user=(n % 6 == 0)), False))
+    # the extended pulse (model: FreshExtended): the model mirrors the known defect; what is checked is that the
+    # implementation deviates from fresh pulses only where the model says so
+    for n in range(300 if ctx.thorough else 60):
+        items.append((EXTENDED, random_history(r, EXTENDED, maxlen=6, p_fail=0.1), True))
     if ctx.thorough:
         # all histories of length <= 2 over the full alphabet x 3 grids on a pulse and one copy (two pulse kinds),
         # all histories of length 3 over the reduced alphabet
@@ -414,7 +472,7 @@ def run(ctx):
             cl = '%s/len%d/%s' % (WORLDS[wk][0].__name__.strip('_'), len(H),
                                   ','.join(sorted({c[2][0] if c[0] in ('call', 'fail') else c[0] for c in H}))[:80])
             classes[cl] = classes.get(cl, 0) + 1
-            if bad:
+            if bad and wk != EXTENDED:
                 def still(c, wk=wk, mini=mini):
                     return bool(property_check(wk, c, mini)[1]) if history_ok(c) else False
                 small = shrink(wk, H, still)
@@ -458,6 +516,14 @@ def run(ctx):
                                     'the old frequencies (%s): PulseSequence.omega keeps a reference (np.asarray) to the '
                                     'caller\'s array' % d,
                              input=dict(probe='omega_alias')))
+    d = probe_eig_intermediates()
+    if d:
+        failures.append(dict(kind='probe', observable='eigenbasis-dependent intermediates survive cleanup(\'conservative\')',
+                             signature='c07-eig-intermediates',
+                             detail='pulse made by extend(..., cache_diagonalization=True); get_control_matrix(w, '
+                                    'cache_intermediates=True); cleanup(\'conservative\'); same frequencies requested again: %s'
+                                    % '; '.join('%s: %s' % kv for kv in d.items()),
+                             input=dict(probe='eig_intermediates')))
     distinct = len(classes)
     return dict(evaluations=len(todo), distinct_nontrivial=distinct,
                 rule='histories of public calls on a pulse and its copies (random, length <= 8, with injected exceptions; '
@@ -472,6 +538,10 @@ def replay(ctx, rep):
     inp = rep.get('input')
     if not inp:
         return False, 'replay names a broken obligation: %s' % rep.get('observable')
+    if inp.get('probe') == 'eig_intermediates':
+        d = probe_eig_intermediates()
+        return (not d), ('replay reproduces: %s' % d if d else 'replay: requests after cleanup(conservative) on the '
+                         'extended pulse agree with a fresh pulse')
     if inp.get('probe') == 'omega_alias':
         d = probe_omega_alias()
         return (not d), ('replay reproduces: stale filter function after in-place change of omega (%s)' % d if d
@@ -504,7 +574,7 @@ def search(ctx, broken):
     for wk in (0, 1):
         cands += [(wk, H) for H in exhaustive_histories(wk, 2, small=True)]
     for n in range(1500):
-        wk = n % len(WORLDS)
+        wk = PLAIN[n % len(PLAIN)]
         cands.append((wk, random_history(r, wk, maxlen=10, p_fail=0.2)))
     for wk, H in cands:
         if not history_ok(H):
